@@ -153,7 +153,14 @@ fn main() {
                 }
                 i += 1;
             }
-            let c = sup::check(&prop, &tier, verif_seed());
+            // a panic of the harness itself is a harness error (exit 2), never a verdict
+            let c = match std::panic::catch_unwind(|| sup::check(&prop, &tier, verif_seed())) {
+                Ok(c) => c,
+                Err(_) => {
+                    println!("HARNESS-ERROR the supervisor panicked: {}", util::take_panics().join(" | "));
+                    2
+                }
+            };
             util::cleanup_scratch();
             c
         }
